@@ -2,8 +2,9 @@
    [exact] of a lemma proved in Res/LegacySortProofs.v, Res/ComposeProofs.v or Res/C11Gen.v.
    Models: Res/LegacySort.v (legacyIDSorter.Less as coded), Res/Compose.v (accumulation: resources lists,
    namePrefix/nameSuffix, id-collision check, sortOptions).  Tables: Gen/LegacyOrder.v, Gen/FieldSpecs.v. *)
-From KV Require Import Res.Compose Res.LegacySortProofs Res.ComposeProofs Res.C11Gen Res.LabelNest Res.LabelNestProofs
+From KV Require Import Res.Compose Res.LegacySortProofs Res.LegacyExact Res.ComposeProofs Res.C11Gen Res.LabelNest Res.LabelNestProofs
   Gen.LegacyOrder Gen.FieldSpecs.
+From KV Require Import Base.SortFacts.
 From Coq Require Import Sorting.Permutation.
 Open Scope string_scope.
 
@@ -123,6 +124,89 @@ Theorem C11_legacy_custom_order_partial :
 Proof. exact legacy_total. Qed.
 Print Assumptions C11_legacy_custom_order_partial.
 
+(* ---------- exactly when is the comparator a strict total order? ---------- *)
+
+(* On valid ids: exactly when no kind other than Namespace, sharing Namespace's rank, has its group_version_kind
+   string strictly between those of a reversed pair (two Namespace kinds one of which is the core one).
+   Real inputs outside: custom legacySortOptions that do not list Namespace + the core Namespace + a Namespace kind
+   of another API group (e.g. servicebus.azure.com) + an unlisted kind in between (every unlisted core kind that
+   sorts before "Namespace", every group above the other Namespace's). *)
+Theorem C11_legacy_total_exact :
+  forall first last l, valid_ids l ->
+    (total_on (legacy_less first last) l <-> straddle_free_b first last l = true).
+Proof. exact legacy_total_exact. Qed.
+Print Assumptions C11_legacy_total_exact.
+
+(* a straddler closes the cycle x < y < o < x *)
+Theorem C11_legacy_straddle_cycle :
+  forall first last x y o, valid_id x = true -> valid_id y = true -> valid_id o = true ->
+    straddles first last (id_gvk x) (id_gvk y) (id_gvk o) = true ->
+    legacy_less first last x y = true /\ legacy_less first last y o = true /\ legacy_less first last o x = true.
+Proof. exact straddle_cycle. Qed.
+Print Assumptions C11_legacy_straddle_cycle.
+
+(* lists that isolate Namespace admit no straddler: C11_legacy_total is the special case *)
+Theorem C11_isolated_straddle_free :
+  forall first last l, namespace_isolated first last = true -> straddle_free_b first last l = true.
+Proof. exact isolated_straddle_free. Qed.
+Print Assumptions C11_isolated_straddle_free.
+
+(* canonicity at full strength under the structural guard (valid, pairwise distinct ids; ANY order lists) *)
+Theorem C11_legacy_canonical_exact :
+  forall first last (sort : list rid -> list rid) l l',
+    sort_spec (legacy_less first last) sort -> valid_ids l -> NoDup l -> straddle_free_b first last l = true ->
+    Permutation l l' -> sort l = sort l' /\ sort l = sort_legacy first last l.
+Proof. exact legacy_canonical_exact. Qed.
+Print Assumptions C11_legacy_canonical_exact.
+
+(* For ARBITRARY ids (place holders, '_', bytes >= '~' included) the decidable guard total_on_b - sort the ids,
+   check every ordered pair - is exact, and under it alone the output is independent of the input order. *)
+Theorem C11_legacy_guard_exact :
+  forall first last l, total_on_b first last l = true <-> NoDup l /\ total_on (legacy_less first last) l.
+Proof. exact total_on_b_exact. Qed.
+Print Assumptions C11_legacy_guard_exact.
+
+Theorem C11_legacy_canonical_guarded :
+  forall first last (sort : list rid -> list rid) l l',
+    sort_spec (legacy_less first last) sort -> total_on_b first last l = true -> Permutation l l' ->
+    sort l = sort l' /\ sort l = sort_legacy first last l.
+Proof. exact legacy_canonical_guarded. Qed.
+Print Assumptions C11_legacy_canonical_guarded.
+
+(* ---------- the comparator of the CURRENT source: with or without the rank guard of repair L ---------- *)
+
+(* [legacy_less_g guarded]: guarded = false is [legacy_less]; guarded = true carries `index1 != 0 &&` in front of
+   the Namespace test.  Gen.LegacyOrder.gen_ns_reversal_guarded says which one /repo contains. *)
+Theorem C11_legacy_less_unguarded :
+  forall first last a b, legacy_less_g false first last a b = legacy_less first last a b.
+Proof. exact legacy_less_g_false. Qed.
+Print Assumptions C11_legacy_less_unguarded.
+
+(* with the guard the order is total on valid ids for EVERY pair of order lists: the finding disappears *)
+Theorem C11_legacy_guarded_total :
+  forall first last l, valid_ids l -> total_on (legacy_less_g true first last) l.
+Proof. exact guarded_total_on. Qed.
+Print Assumptions C11_legacy_guarded_total.
+
+Theorem C11_legacy_guarded_canonical :
+  forall first last (sort : list rid -> list rid) l l',
+    sort_spec (legacy_less_g true first last) sort -> valid_ids l -> NoDup l -> Permutation l l' ->
+    sort l = sort l' /\ sort l = sort_legacy_g true first last l.
+Proof. exact guarded_canonical. Qed.
+Print Assumptions C11_legacy_guarded_canonical.
+
+(* the source as it is today, built-in lists *)
+Theorem C11_legacy_total_current_default :
+  forall l, valid_ids l -> total_on (less_gen gen_order_first gen_order_last) l.
+Proof. exact legacy_total_gen_default. Qed.
+Print Assumptions C11_legacy_total_current_default.
+
+(* ... and every pair of lists as soon as the generated flag says the guard is in the source *)
+Theorem C11_legacy_total_current_all_lists :
+  gen_ns_reversal_guarded = true -> forall first last l, valid_ids l -> total_on (less_gen first last) l.
+Proof. exact legacy_total_gen_all_lists. Qed.
+Print Assumptions C11_legacy_total_current_all_lists.
+
 (* ================= composition ================= *)
 
 (* accumulate is exactly: "every nested collision check passes" ? the flattened, renamed documents : error *)
@@ -137,9 +221,9 @@ Print Assumptions C11_accumulate_closed_form.
    for every sort option.  Hypothesis: T is still a kustomization once its top-only field (sortOptions) moved to
    the wrapper (Kustomization.CheckEmpty rejects a file with no field; see wrap_empty_corner). *)
 Theorem C11_wrap :
-  forall cs pfx_fs sfx_fs pfx_skip sfx_skip o t,
+  forall cs pfx_fs sfx_fs pfx_skip sfx_skip guarded o t,
     is_empty_kust t = false \/ o = SortNone ->
-    build cs pfx_fs sfx_fs pfx_skip sfx_skip o (wrap t) = build cs pfx_fs sfx_fs pfx_skip sfx_skip o t.
+    build cs pfx_fs sfx_fs pfx_skip sfx_skip guarded o (wrap t) = build cs pfx_fs sfx_fs pfx_skip sfx_skip guarded o t.
 Proof. exact build_wrap. Qed.
 Print Assumptions C11_wrap.
 
@@ -153,8 +237,8 @@ Print Assumptions C11_wrap_accumulate.
 (* Permuting the entries of resources lists, at any depth (tperm): same outcome class; on success the
    output is a permutation (multiset of documents unchanged), whatever the sort option. *)
 Theorem C11_permute_multiset :
-  forall cs pfx_fs sfx_fs pfx_skip sfx_skip o t t', tperm t t' ->
-    match build cs pfx_fs sfx_fs pfx_skip sfx_skip o t, build cs pfx_fs sfx_fs pfx_skip sfx_skip o t' with
+  forall cs pfx_fs sfx_fs pfx_skip sfx_skip guarded o t t', tperm t t' ->
+    match build cs pfx_fs sfx_fs pfx_skip sfx_skip guarded o t, build cs pfx_fs sfx_fs pfx_skip sfx_skip guarded o t' with
     | Ok out, Ok out' => Permutation out out'
     | Err, Err => True
     | _, _ => False
@@ -164,10 +248,10 @@ Print Assumptions C11_permute_multiset.
 
 (* With the legacy order (lists isolating Namespace, valid output ids) the output is the SAME list. *)
 Theorem C11_permute_legacy :
-  forall cs pfx_fs sfx_fs pfx_skip sfx_skip first last t t' out,
-    namespace_isolated first last = true -> tperm t t' ->
-    build cs pfx_fs sfx_fs pfx_skip sfx_skip (SortLegacy first last) t = Ok out -> valid_ids out ->
-    build cs pfx_fs sfx_fs pfx_skip sfx_skip (SortLegacy first last) t' = Ok out.
+  forall cs pfx_fs sfx_fs pfx_skip sfx_skip guarded first last t t' out,
+    guarded = true \/ namespace_isolated first last = true -> tperm t t' ->
+    build cs pfx_fs sfx_fs pfx_skip sfx_skip guarded (SortLegacy first last) t = Ok out -> valid_ids out ->
+    build cs pfx_fs sfx_fs pfx_skip sfx_skip guarded (SortLegacy first last) t' = Ok out.
 Proof. exact build_permute_legacy. Qed.
 Print Assumptions C11_permute_legacy.
 
@@ -182,8 +266,8 @@ Print Assumptions C11_permute_legacy_default.
 Theorem C11_permute_legacy_refuted :
   exists first last t t' out out',
     tperm t t' /\ valid_ids out /\
-    build_gen cs_none (SortLegacy first last) t = Ok out /\
-    build_gen cs_none (SortLegacy first last) t' = Ok out' /\ out <> out'.
+    build_unguarded cs_none (SortLegacy first last) t = Ok out /\
+    build_unguarded cs_none (SortLegacy first last) t' = Ok out' /\ out <> out'.
 Proof. exact permute_legacy_refuted. Qed.
 Print Assumptions C11_permute_legacy_refuted.
 
@@ -192,10 +276,10 @@ Print Assumptions C11_permute_legacy_refuted.
        build (SortLegacy first last) t' = Ok out.
    Missing: order lists that do not isolate Namespace. *)
 Theorem C11_permute_legacy_partial :
-  forall cs pfx_fs sfx_fs pfx_skip sfx_skip first last t t' out,
-    namespace_isolated first last = true -> tperm t t' ->
-    build cs pfx_fs sfx_fs pfx_skip sfx_skip (SortLegacy first last) t = Ok out -> valid_ids out ->
-    build cs pfx_fs sfx_fs pfx_skip sfx_skip (SortLegacy first last) t' = Ok out.
+  forall cs pfx_fs sfx_fs pfx_skip sfx_skip guarded first last t t' out,
+    guarded = true \/ namespace_isolated first last = true -> tperm t t' ->
+    build cs pfx_fs sfx_fs pfx_skip sfx_skip guarded (SortLegacy first last) t = Ok out -> valid_ids out ->
+    build cs pfx_fs sfx_fs pfx_skip sfx_skip guarded (SortLegacy first last) t' = Ok out.
 Proof. exact build_permute_legacy. Qed.
 Print Assumptions C11_permute_legacy_partial.
 
@@ -229,6 +313,53 @@ Theorem C11_output_ids_distinct :
     accumulate cs pfx_fs sfx_fs pfx_skip sfx_skip t = Ok out -> NoDup (map r_cur out).
 Proof. exact accumulate_nodup. Qed.
 Print Assumptions C11_output_ids_distinct.
+
+(* ---------- permutations of EVERY resources list at once; the exact guard; the FIFO law ---------- *)
+
+(* tpermd: every resources list of the tree, at every depth, is permuted arbitrarily (entries first rewritten
+   recursively).  It is contained in tperm, so C11_permute_multiset / C11_permute_legacy apply to it. *)
+Theorem C11_tpermd_tperm : forall t t', tpermd t t' -> tperm t t'.
+Proof. exact tpermd_tperm. Qed.
+Print Assumptions C11_tpermd_tperm.
+
+Theorem C11_permute_multiset_every_layer :
+  forall cs pfx_fs sfx_fs pfx_skip sfx_skip guarded o t t', tpermd t t' ->
+    match build cs pfx_fs sfx_fs pfx_skip sfx_skip guarded o t, build cs pfx_fs sfx_fs pfx_skip sfx_skip guarded o t' with
+    | Ok out, Ok out' => Permutation out out'
+    | Err, Err => True
+    | _, _ => False
+    end.
+Proof. exact (fun cs a b c d g o t t' H => build_permute_multiset cs a b c d g o t t' (tpermd_tperm t t' H)). Qed.
+Print Assumptions C11_permute_multiset_every_layer.
+
+(* the legacy law at full strength: the only hypothesis is the exact guard on the OUTPUT id set *)
+Theorem C11_permute_legacy_guard :
+  forall cs pfx_fs sfx_fs pfx_skip sfx_skip guarded first last t t' out,
+    tperm t t' ->
+    build cs pfx_fs sfx_fs pfx_skip sfx_skip guarded (SortLegacy first last) t = Ok out ->
+    total_on_g_b guarded first last out = true ->
+    build cs pfx_fs sfx_fs pfx_skip sfx_skip guarded (SortLegacy first last) t' = Ok out.
+Proof. exact build_permute_legacy_guard. Qed.
+Print Assumptions C11_permute_legacy_guard.
+
+Theorem C11_permute_legacy_every_layer :
+  forall cs pfx_fs sfx_fs pfx_skip sfx_skip guarded first last t t' out,
+    guarded = true \/ namespace_isolated first last = true -> tpermd t t' ->
+    build cs pfx_fs sfx_fs pfx_skip sfx_skip guarded (SortLegacy first last) t = Ok out -> valid_ids out ->
+    build cs pfx_fs sfx_fs pfx_skip sfx_skip guarded (SortLegacy first last) t' = Ok out.
+Proof.
+  exact (fun cs a b c d g f l t t' out I H => build_permute_legacy cs a b c d g f l t t' out I (tpermd_tperm t t' H)).
+Qed.
+Print Assumptions C11_permute_legacy_every_layer.
+
+(* `sortOptions: {order: fifo}` (and no sortOptions): the output documents are the loaded documents in
+   depth-first load order - the i-th output is the i-th document of the traversal, renamed *)
+Theorem C11_fifo_order :
+  forall cs pfx_fs sfx_fs pfx_skip sfx_skip guarded o t out,
+    o = SortFifo \/ o = SortNone -> build cs pfx_fs sfx_fs pfx_skip sfx_skip guarded o t = Ok out ->
+    exists res, out = map r_cur res /\ map r_org res = dfs_docs t.
+Proof. exact fifo_order. Qed.
+Print Assumptions C11_fifo_order.
 
 (* ================= labels ================= *)
 
